@@ -867,6 +867,24 @@ def run_concat(group, idx):
             if not any('third-party' in p for p in pp):
                 break
         results.append({'case': {'concat': label, 'form': fname, 'kind': 'concat'}, 'problems': pp, 'nontrivial': True})
+    # the first key once more at the end (two overlapping keyring exports concatenated): every key object that comes back must
+    # export exactly as one of the keys that went in - no component may move to a neighbour, none may get lost
+    rep = cat + group[0][1]
+    pp = []
+    if not strict:
+        return results          # byte-exact re-export is not required of these shapes (see check_import)
+    try:
+        first, others = pgpy.PGPKey.from_blob(rep)
+        got = [bytes(first)] + [bytes(k) for k in others.values() if k is not first]
+        want = set(g[1] for g in group)
+        for j, b in enumerate(got):
+            if b not in want:
+                pp.append('key %d of the blob "%s + first key again" re-exports as none of the keys that went in (components moved or lost)' % (j, ' + '.join(g[3] for g in group)))
+        if set(got) != want:
+            pp.append('keys found in "%s + first key again": %d distinct exports, %d went in' % (' + '.join(g[3] for g in group), len(set(got)), len(want)))
+    except Exception as ex:
+        pp.append('import of a blob with a repeated key raised %s: %s' % (type(ex).__name__, str(ex)[:80]))
+    results.append({'case': {'concat': label + [label[0]], 'form': 'binary, first key repeated', 'kind': 'concat'}, 'problems': pp[:2], 'nontrivial': True})
     return results
 
 
